@@ -15,7 +15,11 @@
   `gridEqAsIs` (snapshot, `or`): `asis_violates_spec`;
   `gridEqCoords` (`and`, `DataArray.equals`, coordinates compared too):
   `coords_structure_violates_spec`, exact behaviour `gridEqCoords_iff`, agreement class
-  `coords_partial` (`a.coordVars = b.coordVars`).
+  `coords_partial` (same coordinates attached to all three variables);
+  `gridEqConnDA` (node variables compared, connectivity as a DataArray again):
+  `conn_coords_violate_spec`, `gridEqConnDA_iff`.
+  `eq_ignores_coord_storage`: the repaired `==` reads no coordinate attached to any of the three
+  compared variables (node, face, width dimension or scalar).
 -/
 import UxVerif.Model.GridEq
 
@@ -248,9 +252,17 @@ theorem eq_sound (a b : Grid) (h : gridEq a b = true) : Same a b := (gridEq_iff 
 /-- **same ⇒ equal**, for all pairs. -/
 theorem eq_complete (a b : Grid) (h : Same a b) : gridEq a b = true := (gridEq_iff a b).mpr h
 
-/-- `==` does not read `coordVars`: the way the coordinates are stored is not an input. -/
-theorem eq_ignores_coord_storage (a b : Grid) (ca cb : Bool) :
-    gridEq { a with coordVars := ca } { b with coordVars := cb } = gridEq a b := rfl
+/-- **`==` reads no coordinate attached to any of the three compared variables**: whatever
+    coordinates (on the node, face or width dimension, or scalar) the source datasets attached to
+    `node_lon`, `node_lat` and `face_node_connectivity` on either side, the result is the same. -/
+theorem eq_ignores_coord_storage (a b : Grid) (x y z x' y' z' : List Coord) :
+    gridEq { a with cLon := x, cLat := y, cConn := z } { b with cLon := x', cLat := y', cConn := z' }
+      = gridEq a b := rfl
+
+/-- `Same` does not mention the attached coordinates either (the Spec is about the values). -/
+theorem same_ignores_coord_storage (a b : Grid) (x y z x' y' z' : List Coord) :
+    Same { a with cLon := x, cLat := y, cConn := z } { b with cLon := x', cLat := y', cConn := z' }
+      ↔ Same a b := Iff.rfl
 
 /-- every way of being unequal: the 2^4 combinations of differing fields collapse to "some
     comparison fails". -/
@@ -266,9 +278,9 @@ theorem gridEq_false_iff (a b : Grid) :
 theorem impl_meets_spec (a b : Grid) : Spec a b (pyEq a (.grid b)) (pyNe a (.grid b)) :=
   ⟨gridEq_iff a b, rfl⟩
 
-example : Spec ⟨[85], [0, 1], [0, 0], 1, 2, [0, 1], false⟩ ⟨[85], [0, 1], [0, 0], 1, 2, [0, 1], true⟩
+example : Spec ⟨[85], [0, 1], [0, 0], 1, 2, [0, 1], [], [], []⟩ ⟨[85], [0, 1], [0, 0], 1, 2, [0, 1], [⟨[1], [0, 1]⟩], [⟨[1], [0, 1]⟩], [⟨[7], [5]⟩]⟩
     true false := impl_meets_spec _ _
-example : Spec ⟨[85], [0, 1], [0, 0], 1, 2, [0, 1], true⟩ ⟨[85], [0, 2], [0, 0], 1, 2, [0, 1], true⟩
+example : Spec ⟨[85], [0, 1], [0, 0], 1, 2, [0, 1], [⟨[1], [0, 1]⟩], [⟨[1], [0, 1]⟩], [⟨[7], [5]⟩]⟩ ⟨[85], [0, 2], [0, 0], 1, 2, [0, 1], [⟨[1], [0, 1]⟩], [⟨[1], [0, 1]⟩], [⟨[7], [5]⟩]⟩
     false true := impl_meets_spec _ _
 
 /-- the Spec determines both outputs: "Spec fails on the observed output" and "observed output
@@ -304,8 +316,8 @@ theorem Same.trans {a b c : Grid} (h1 : Same a b) (h2 : Same b c) : Same a c := 
 /-- **reflexive**: every grid equals itself — also one whose coordinates contain NaN. -/
 theorem eq_refl (a : Grid) : gridEq a a = true := (gridEq_iff a a).mpr (Same.refl a)
 
-example : gridEq ⟨[85], [0x7FF8000000000000, 1], [0, 0], 1, 2, [0, FILL], false⟩
-    ⟨[85], [0x7FF8000000000000, 1], [0, 0], 1, 2, [0, FILL], false⟩ = true := eq_refl _
+example : gridEq ⟨[85], [0x7FF8000000000000, 1], [0, 0], 1, 2, [0, FILL], [], [], []⟩
+    ⟨[85], [0x7FF8000000000000, 1], [0, 0], 1, 2, [0, FILL], [], [], []⟩ = true := eq_refl _
 
 /-- **symmetric**: `a == b` and `b == a` always agree. -/
 theorem eq_symm (a b : Grid) : gridEq a b = gridEq b a := by
@@ -335,8 +347,8 @@ theorem copy_eq (a : Grid) :
   have hc : copy a = a := by cases a; rfl
   simp [pyNe, pyEq, hc, eq_refl]
 
-example : pyEq ⟨[85], [0, 1], [0, 0], 1, 2, [0, 1], true⟩
-    (.grid (copy ⟨[85], [0, 1], [0, 0], 1, 2, [0, 1], true⟩)) = true := (copy_eq _).1
+example : pyEq ⟨[85], [0, 1], [0, 0], 1, 2, [0, 1], [⟨[1], [0, 1]⟩], [⟨[1], [0, 1]⟩], [⟨[7], [5]⟩]⟩
+    (.grid (copy ⟨[85], [0, 1], [0, 0], 1, 2, [0, 1], [⟨[1], [0, 1]⟩], [⟨[1], [0, 1]⟩], [⟨[7], [5]⟩]⟩)) = true := (copy_eq _).1
 
 theorem not_same_of_change {a b : Grid} (h : Change a b) : ¬ Same a b := by
   intro hs
@@ -376,16 +388,16 @@ theorem single_change_detected {a b : Grid} (h : Change a b) :
   simp [pyNe, pyEq, h1, h2]
 
 -- non-vacuity: one longitude changed by one ulp; a node replaced by the fill value; a node added
-example : gridEq ⟨[85], [4607182418800017408, 0], [0, 0], 1, 2, [0, 1], false⟩
-    ⟨[85], [4607182418800017409, 0], [0, 0], 1, 2, [0, 1], false⟩ = false :=
-  (single_change_detected (Change.lon (a := ⟨[85], [4607182418800017408, 0], [0, 0], 1, 2, [0, 1], false⟩)
+example : gridEq ⟨[85], [4607182418800017408, 0], [0, 0], 1, 2, [0, 1], [], [], []⟩
+    ⟨[85], [4607182418800017409, 0], [0, 0], 1, 2, [0, 1], [], [], []⟩ = false :=
+  (single_change_detected (Change.lon (a := ⟨[85], [4607182418800017408, 0], [0, 0], 1, 2, [0, 1], [], [], []⟩)
     0 4607182418800017409 (by decide) (by decide))).1
-example : gridEq ⟨[85], [1, 0], [0, 0], 1, 2, [0, 1], false⟩
-    ⟨[85], [1, 0], [0, 0], 1, 2, [0, FILL], false⟩ = false :=
-  (single_change_detected (Change.conn (a := ⟨[85], [1, 0], [0, 0], 1, 2, [0, 1], false⟩)
+example : gridEq ⟨[85], [1, 0], [0, 0], 1, 2, [0, 1], [], [], []⟩
+    ⟨[85], [1, 0], [0, 0], 1, 2, [0, FILL], [], [], []⟩ = false :=
+  (single_change_detected (Change.conn (a := ⟨[85], [1, 0], [0, 0], 1, 2, [0, 1], [], [], []⟩)
     1 FILL (by decide) (by decide))).1
-example : gridEq ⟨[85], [1, 0], [0, 0], 1, 2, [0, 1], false⟩
-    ⟨[85], [1, 0, 5], [0, 0, 5], 1, 2, [0, 1], false⟩ = false :=
+example : gridEq ⟨[85], [1, 0], [0, 0], 1, 2, [0, 1], [], [], []⟩
+    ⟨[85], [1, 0, 5], [0, 0, 5], 1, 2, [0, 1], [], [], []⟩ = false :=
   (single_change_detected (Change.nNode _ (Or.inl (by decide)))).1
 
 /-- two coordinate arrays are reported different iff the lengths differ or some entry does. -/
@@ -418,21 +430,24 @@ theorem failing_nil_iff (a b : Grid) (e n : Bool) : failing a b e n = [] ↔ Spe
     variables, `cB` as xarray coordinates.  `DataArray.equals` compares coordinates too. -/
 
 def cA : Grid := ⟨[85], [0, 4621819117588971520, 4626322717216342016],
-  [0, 0, 4617315517961601024], 1, 3, [0, 1, 2], false⟩
-def cB : Grid := { cA with coordVars := true }
+  [0, 0, 4617315517961601024], 1, 3, [0, 1, 2], [], [], []⟩
+def nodeCoords (g : Grid) : List Coord := [⟨[1], g.lon⟩, ⟨[2], g.lat⟩]
+def cB : Grid := { cA with cLon := nodeCoords cA, cLat := nodeCoords cA }
 
-/-- what `DataArray.equals` made of `==`: also the same way of storing the coordinates. -/
+/-- what `DataArray.equals` made of `==`: also the same coordinates attached to each of the
+    three variables. -/
 theorem gridEqCoords_iff (a b : Grid) :
-    gridEqCoords a b = true ↔ Same a b ∧ a.coordVars = b.coordVars := by
+    gridEqCoords a b = true ↔ Same a b ∧ sameCoords a b = true := by
   rw [same_iff_bools]
-  unfold gridEqCoords lonEqDA latEqDA coordsEq
+  unfold gridEqCoords lonEqDA latEqDA connEqDA sameCoords
   generalize arrEq valEq a.lon b.lon = L
   generalize arrEq valEq a.lat b.lat = T
   generalize connEq a b = C
-  generalize a.coordVars = ca
-  generalize b.coordVars = cb
+  generalize coordsEq a.cLon b.cLon = c1
+  generalize coordsEq a.cLat b.cLat = c2
+  generalize coordsEq a.cConn b.cConn = c3
   by_cases hs : a.spec = b.spec
-  · cases L <;> cases T <;> cases C <;> cases ca <;> cases cb <;> simp [hs]
+  · cases L <;> cases T <;> cases C <;> cases c1 <;> cases c2 <;> cases c3 <;> simp [hs]
   · simp [hs]
 
 /-- … so identical grids whose source datasets stored the coordinates differently compared
@@ -447,15 +462,58 @@ theorem coords_structure_violates_spec :
 example : Spec cA cB (gridEq cA cB) (!gridEq cA cB) := impl_meets_spec cA cB
 example : gridEq cA cB = true := by decide
 
-/-- the `DataArray.equals` version was right exactly on pairs that store the coordinates the
-    same way; it never called different grids equal. -/
-theorem coords_partial (a b : Grid) (hc : a.coordVars = b.coordVars) :
+/-- the `DataArray.equals` version was right exactly on pairs carrying the same coordinates; it
+    never called different grids equal. -/
+theorem coords_partial (a b : Grid) (hc : sameCoords a b = true) :
     gridEqCoords a b = gridEq a b := by
   rw [Bool.eq_iff_iff, gridEqCoords_iff, gridEq_iff]
   exact ⟨fun h => h.1, fun h => ⟨h, hc⟩⟩
 
 theorem coords_sound (a b : Grid) (h : gridEqCoords a b = true) : gridEq a b = true :=
   (gridEq_iff a b).mpr ((gridEqCoords_iff a b).mp h).1
+
+/-! ### partial regression: only the connectivity compared as a DataArray
+
+    `fB` is `cA` read from a dataset in which `face_lon` is an xarray coordinate (it lives on
+    `n_face`, so `face_node_connectivity` carries it); `fC` has an index coordinate on `n_face`,
+    `fD` a scalar coordinate.  Values of lon / lat / connectivity are identical throughout. -/
+
+def fB : Grid := { cA with cConn := [⟨[3], [4621819117588971520]⟩] }
+def fC : Grid := { cA with cConn := [⟨[4], [0]⟩] }
+def fD : Grid := { cA with cLon := [⟨[5], [0]⟩], cLat := [⟨[5], [0]⟩], cConn := [⟨[5], [0]⟩] }
+
+theorem gridEqConnDA_iff (a b : Grid) :
+    gridEqConnDA a b = true ↔ Same a b ∧ coordsEq a.cConn b.cConn = true := by
+  rw [same_iff_bools]
+  unfold gridEqConnDA lonEq latEq connEqDA
+  generalize arrEq valEq a.lon b.lon = L
+  generalize arrEq valEq a.lat b.lat = T
+  generalize connEq a b = C
+  generalize coordsEq a.cConn b.cConn = c3
+  by_cases hs : a.spec = b.spec
+  · cases L <;> cases T <;> cases C <;> cases c3 <;> simp [hs]
+  · simp [hs]
+
+/-- comparing the connectivity as a DataArray violates the Spec on identical grids that differ
+    only in a face-dimension coordinate, an index coordinate or a scalar coordinate of the source
+    dataset — while the node-coordinate witness `cA`/`cB` no longer shows it. -/
+theorem conn_coords_violate_spec :
+    ¬ Spec cA fB (gridEqConnDA cA fB) (!gridEqConnDA cA fB) ∧
+    ¬ Spec cA fC (gridEqConnDA cA fC) (!gridEqConnDA cA fC) ∧
+    ¬ Spec cA fD (gridEqConnDA cA fD) (!gridEqConnDA cA fD) ∧
+    gridEqConnDA cA cB = true := by
+  refine ⟨?_, ?_, ?_, by decide⟩ <;>
+  · intro h
+    have := (specB_iff _ _ _ _).mpr h
+    revert this
+    decide
+
+example : gridEq cA fB = true ∧ gridEq fC cA = true ∧ gridEq fD fB = true := by decide
+
+theorem connDA_partial (a b : Grid) (hc : coordsEq a.cConn b.cConn = true) :
+    gridEqConnDA a b = gridEq a b := by
+  rw [Bool.eq_iff_iff, gridEqConnDA_iff, gridEq_iff]
+  exact ⟨fun h => h.1, fun h => ⟨h, hc⟩⟩
 
 /-! ## the snapshot's connective (`or`) — regression witness
 
@@ -626,7 +684,7 @@ def rLon : List Nat := [0, 4629137466983448576, 4633641066610819072, 46360336039
   4638144666238189568, 4639481672377565184, 4640537203540230144, 4641592734702895104,
   4642648265865560064, 4643457506423603200, 4643985272004935680, 4644513037586268160]
 def rLat : List Nat := List.replicate 12 4621819117588971520
-def r43 : Grid := ⟨[85], rLon, rLat, 4, 3, [0, 1, 2, 3, 4, 5, 6, 7, 8, 9, 10, 11], false⟩
+def r43 : Grid := ⟨[85], rLon, rLat, 4, 3, [0, 1, 2, 3, 4, 5, 6, 7, 8, 9, 10, 11], [], [], []⟩
 def r34 : Grid := { r43 with nFace := 3, width := 4 }
 def r26 : Grid := { r43 with nFace := 2, width := 6 }
 
@@ -655,10 +713,10 @@ theorem flat_partial (a b : Grid) (h1 : a.nFace = b.nFace) (h2 : a.width = b.wid
 /-- what `or` computes: it forgets one of the two coordinate comparisons. -/
 theorem asis_eq_iff (a b : Grid) :
     gridEqAsIs a b = true ↔
-      a.spec = b.spec ∧ (lonEqDA a b = true ∨ latEqDA a b = true) ∧ connEq a b = true := by
+      a.spec = b.spec ∧ (lonEqDA a b = true ∨ latEqDA a b = true) ∧ connEqDA a b = true := by
   unfold gridEqAsIs
   by_cases hs : a.spec = b.spec
-  · cases h1 : lonEqDA a b <;> cases h2 : latEqDA a b <;> cases h3 : connEq a b <;> simp [hs]
+  · cases h1 : lonEqDA a b <;> cases h2 : latEqDA a b <;> cases h3 : connEqDA a b <;> simp [hs]
   · simp [hs]
 
 /-- the snapshot's algorithm agrees with the `and` version exactly on the class where the two
@@ -669,14 +727,16 @@ theorem asis_partial (a b : Grid) (h : lonEqDA a b = latEqDA a b) :
   rw [h]
   cases latEqDA a b <;> simp
 
-/-- … in particular on grids whose coordinates are xarray coordinates (Exodus reader): there each
-    `DataArray.equals` call already compares both arrays, which masked the wrong connective. -/
-theorem asis_coordVars (a b : Grid) (ha : a.coordVars = true) (hb : b.coordVars = true) :
-    gridEqAsIs a b = gridEq a b := by
-  rw [← coords_partial a b (ha.trans hb.symm)]
+/-- … in particular on grids whose node coordinates are xarray coordinates of one another (Exodus
+    reader): there each `DataArray.equals` call already compares both arrays, which masked the
+    wrong connective. -/
+theorem asis_nodeCoords (a b : Grid) (ha : a.cLon = nodeCoords a ∧ a.cLat = nodeCoords a)
+    (hb : b.cLon = nodeCoords b ∧ b.cLat = nodeCoords b) :
+    gridEqAsIs a b = gridEqCoords a b := by
   apply asis_partial
-  unfold lonEqDA latEqDA coordsEq
-  rw [ha, hb]
-  cases arrEq valEq a.lon b.lon <;> cases arrEq valEq a.lat b.lat <;> rfl
+  unfold lonEqDA latEqDA
+  rw [ha.1, ha.2, hb.1, hb.2]
+  simp only [coordsEq, nodeCoords, arrEq, coordEq]
+  cases arrEq valEq a.lon b.lon <;> cases arrEq valEq a.lat b.lat <;> simp
 
 end UxVerif.C20
